@@ -85,7 +85,7 @@ def run_case(case, ctx):
                 stamp = pd.Timestamp(stamp, tz='UTC')        # timezone-aware publication stamps: instants, whatever zone a reader quotes them in
             idx = [dates[i] for i in ver['idx']]
             vals = [float('nan') if v is None else float(v) for v in ver['vals']]
-            s = pd.Series(vals, index=pd.DatetimeIndex(idx), dtype=float)
+            s = pd.Series(vals, index=pd.DatetimeIndex(idx), dtype=float, name=case.get('series_name'))       # a series usually carries a name
             if ver.get('as_frame'):
                 # the publisher hands over its working table (a one-column frame); when it covers the same dates as the last one it is that very object, amended in place
                 if working.get('idx') == idx and working.get('obj') is not None:
@@ -250,6 +250,8 @@ def gen_case(rng):
                 v_['as_frame'] = True
                 if i_ and rng.random() < 0.5:
                     v_['idx'] = list(versions[i_ - 1]['idx']); v_['vals'] = [rng.choice(pool) for _ in v_['idx']]
+    if rng.random() < 0.3:
+        case['series_name'] = rng.choice(['px', 'close', 'updated_px'])
     if rng.random() < 0.25:
         case['future'] = True
     elif rng.random() < 0.2:
